@@ -21,6 +21,8 @@ PROPS = {
         'bounded_standins': [
             {'oracle': 'diffrun::C04', 'cases': 0, 'functions': 30, 'programs_quick': 2, 'programs_thorough': 6, 'function': 'the whole pipeline (lexer, parser, checker, lowering, code generator, project generator, rustc, the program) on / // % in 12 statement / operand shapes (nested, mixed with + - *, int(..), let, compound on local / field / element, lambda, bare statement) over 22 operand forms',
              'bound': 'a seeded SAMPLE (not exhaustive): 2 programs (quick) / 6 programs (thorough) of 30 generated test functions each — alternately as one file and as an IMPORTED module next to the main file —, every function called with 3 argument sets; the program must build (rustc judges the declared numeric kind of every expression) and every printed value must equal the documented semantics computed with Python; plus programs that must stop with the documented error text after printing a marker (C04: 11 zero-divisor forms, C05: 10 out-of-range / zero-step forms; two per quick run, all in a thorough run); shapes that need parentheses around + - * sub-expressions and a few shapes that trip unrelated compiler defects are not generated (listed in tools/diffrun.py)'},
+            {'oracle': 'incan::fstring_operands', 'cases': 12, 'function': 'parser convert_fstring_parts / parse_fstring_expr (spans of f-string sub-expressions) + checker type map + lowering of operands',
+             'bound': 'exhaustive over 6 operators x ints-first / floats-first: four f-strings in one function (int pair, float pair, float var with a float literal, int var with a float literal); each expression must get the helper / promotion for its own operands'},
             {'oracle': 'incan::emit_division', 'cases': 132, 'function': 'parser + lowering of `L op R` / `T op= R` (compound assignment on locals, fields and list elements; const initializers) and emit_binop_expr',
              'bound': 'exhaustive over / // % x int/float left x int/float right x 11 forms (plain, plain with a negated left operand, compound on a local / field / list element, const initializer over literals, bare expression statement, inside int(..), parenthesised operands, call result as left operand, body of a lambda with an untyped parameter); fixed program shapes; checks helper, operand order and promotions in the generated call (a folded const must have Python\'s value)'},
         ],
@@ -116,6 +118,8 @@ PROPS = {
              'bound': 'exhaustive over 7 operators x int/float operand kinds x int/float annotation x 7 right-operand forms (variable, const, literal, 0, negative literal, parenthesised, double minus) x 5 binding positions (let, return, argument, const initializer, let inside an elif branch) x bare / parenthesised right-hand side x 3 annotation spellings (int / Int / INT); fixed program shapes; accepted iff the annotation is the kind given by the table'},
             {'oracle': 'diffrun::C07', 'cases': 0, 'functions': 30, 'programs_quick': 2, 'programs_thorough': 6, 'function': 'the whole pipeline (lexer, parser, checker, lowering, code generator, project generator, rustc, the program) on + - * ** and comparisons over int / float operands in 22 operand forms (annotated let, compound on local / field, zip / enumerate components, natural-precedence nesting)',
              'bound': 'a seeded SAMPLE (not exhaustive): 2 programs (quick) / 6 programs (thorough) of 30 generated test functions each — alternately as one file and as an IMPORTED module next to the main file —, every function called with 3 argument sets; the program must build (rustc judges the declared numeric kind of every expression) and every printed value must equal the documented semantics computed with Python; plus programs that must stop with the documented error text after printing a marker (C04: 11 zero-divisor forms, C05: 10 out-of-range / zero-step forms; two per quick run, all in a thorough run); shapes that need parentheses around + - * sub-expressions and a few shapes that trip unrelated compiler defects are not generated (listed in tools/diffrun.py)'},
+            {'oracle': 'incan::fstring_operands', 'cases': 12, 'function': 'parser convert_fstring_parts / parse_fstring_expr (spans of f-string sub-expressions) + checker type map + lowering of operands',
+             'bound': 'exhaustive over 6 operators x ints-first / floats-first: four f-strings in one function (int pair, float pair, float var with a float literal, int var with a float literal); each expression must get the helper / promotion for its own operands'},
             {'oracle': 'incan::multifile_promotion', 'cases': 6, 'function': 'IrCodegen multi-file generation (try_generate_multi_file / _nested): lowering of an IMPORTED module',
              'bound': 'a helper module with a model and one function next to a main module that imports it, through both multi-file APIs x 3 arithmetic expressions over int / float fields inside the module; int operands of a float operation must be promoted'},
             {'oracle': 'incan::static_type_sources', 'cases': 140, 'function': 'TypeChecker: typing of operands that come out of typed containers and builtins (check_builtin_call zip / enumerate, index, dict value, len)',
